@@ -92,6 +92,10 @@ func buildValues(rng *rand.Rand) *values {
 		{SerialNumber: new(big.Int).Lsh(big.NewInt(1), 159), RevocationTime: time.Date(1999, 12, 31, 23, 59, 59, 0, time.UTC)},
 		{SerialNumber: big.NewInt(255), RevocationTime: t0},
 		{SerialNumber: big.NewInt(256), RevocationTime: t0},
+		// the pairs of entries 0 and 1 again with another date and other extensions: inserting a pair
+		// a second time replaces the stored entry
+		{SerialNumber: big.NewInt(1), RevocationTime: t0.Add(48 * time.Hour), Extensions: []pkix.Extension{{Id: oid, Value: []byte{0x0a, 1, 4}}}},
+		{SerialNumber: big.NewInt(2), RevocationTime: t0.Add(-time.Hour)},
 	}
 	v.metas = []crlreader.CRLMetaInfo{
 		{Issuer: v.issuers[0], ThisUpdate: t0, NextUpdate: t0.Add(24 * time.Hour)},
@@ -422,7 +426,7 @@ func seqString(seq []op) string {
 
 func main() {
 	run := report.New("C18", "exploration")
-	run.Rule("sequences over {start, insert, ext-meta, signer, locations, replace-with(nested store), close+reopen}; exhaustive up to a bounded length over a 13-symbol alphabet (two values per letter), longer ones seeded random over the full value set; after every op all observations (lookups for every issuer x serial probe, meta, ext-meta, signer, locations) are compared memory <-> disk <-> abstract map; non-trivial = sequence contains >=1 insert or replace and >=1 further op; distinct = sequence text")
+	run.Rule("sequences over {start, insert, ext-meta, signer, locations, replace-with(nested store), close+reopen}; exhaustive up to a bounded length over a 14-symbol alphabet (two values per letter, plus the re-insert of a stored pair with another date and other extensions), longer ones seeded random over the full value set; after every op all observations (lookups for every issuer x serial probe, meta, ext-meta, signer, locations) are compared memory <-> disk <-> abstract map; non-trivial = sequence contains >=1 insert or replace and >=1 further op; distinct = sequence text")
 	run.Assume("observations compared at second precision; IsEmpty is not compared (backends define it differently and the property does not list it)", "meta times below 2050")
 	scratch, cleanup := report.Scratch("C18")
 	defer cleanup()
@@ -435,7 +439,7 @@ func main() {
 	sub2 := []op{{Kind: "insert", A: 0, B: 1}, {Kind: "insert", A: 2, B: 0}, {Kind: "ext", A: 2}, {Kind: "signer", A: 1}}
 	alpha := []op{
 		{Kind: "start", A: 0}, {Kind: "start", A: 1},
-		{Kind: "insert", A: 0, B: 0}, {Kind: "insert", A: 1, B: 0},
+		{Kind: "insert", A: 0, B: 0}, {Kind: "insert", A: 1, B: 0}, {Kind: "insert", A: 11, B: 0},
 		{Kind: "ext", A: 0}, {Kind: "ext", A: 2},
 		{Kind: "signer", A: 0}, {Kind: "signer", A: 1},
 		{Kind: "locs", A: 0}, {Kind: "locs", A: 2},
